@@ -157,9 +157,9 @@ def op_name(st):
     return ("inner." + n) if st.get("inner") else n
 
 
-def _solver_skip(world):
+def _solver_skip(world, extra=()):
     """Solver-dependent observables are skipped when a raw answer is uncertified."""
-    for a in world.solver.attempts:
+    for a in list(world.solver.attempts) + list(extra):
         if a["outcome"] == "ok":
             c, r2 = a["raw"]
             if certificate(a["W"], c, np.sqrt(max(r2, 0.0))):
